@@ -21,12 +21,18 @@ Definition hinfo (m : N) : minfo :=
   | 5 => mk_info "T" "m5" false false false
   | 6 => mk_info "G" "g" false false true        (* G<u8>::g *)
   | 7 => mk_info "G" "g" false false true        (* G<u16>::g *)
+  (* mock::std::process::TerminationMock::report: partial by default; the
+     hand-written impl in lib.rs handles Unmock by running the real report *)
+  | 8 => {| mi_trait := "Termination"; mi_method := "report"; mi_has_default := false;
+            mi_partial_by_default := true; mi_has_unmock_arm := true; mi_out_clone := true |}
   | _ => mk_info "?" "?" false false true
   end.
 
 (* matchers are bit masks over the argument domain: every predicate *)
 Definition haccepts (mask a : N) : bool := N.testbit mask a.
-Definition hdebug (a : N) : list (option string) := [Some (dec a)].
+(* arguments 0..7 belong to the u8-taking methods; 8 stands for the empty
+   argument tuple of Termination::report *)
+Definition hdebug (a : N) : list (option string) := if a <? 8 then [Some (dec a)] else [].
 
 (* ---------- events ---------- *)
 
@@ -125,12 +131,28 @@ Definition step (w : world) (e : event) : world * string :=
     match live_inst w i with
     | None => (w, "invalid")
     | Some it =>
-      (kill w i it,
-       match teardown hinfo (w_bc w) (w_cfg w) (w_state w) x it (strong_count (w_insts w)) with
-       | TdOk => "exit:SUCCESS"
-       | TdErrs _ => "exit:FAILURE"
-       | TdPanic msg => "P:" ++ msg
-       end)
+      (* impl Termination for Unimock (feature mock-std): eval of
+         TerminationMock::report first; Unmock = the real report *)
+      let '(s', act) := call hinfo N haccepts hdebug (w_cfg w) (w_state w) 8 8 in
+      let w1 := set_state w s' in
+      match act with
+      | ActReal =>
+        (kill w1 i it,
+         match teardown hinfo (w_bc w1) (w_cfg w1) (w_state w1) x it (strong_count (w_insts w1)) with
+         | TdOk => "exit:SUCCESS"
+         | TdErrs _ => "exit:FAILURE"
+         | TdPanic msg => "P:" ++ msg
+         end)
+      | ActPanic e => (kill w1 i it, "P:" ++ render_error hinfo e)   (* self dropped while unwinding *)
+      | ActReturn v =>
+        (* the configured exit code is returned, then `self` is dropped: verification in drop *)
+        (kill w1 i it,
+         match drop_panic hinfo (w_bc w1) (w_cfg w1) (w_state w1) x it (strong_count (w_insts w1)) with
+         | None => "exit:" ++ show_retval v
+         | Some msg => "P:" ++ msg
+         end)
+      | _ => (kill w1 i it, "unmodelled")
+      end
     end
   end.
 
